@@ -544,19 +544,37 @@ func burnFaceIDs() {
 		return
 	}
 	idsBurnt = true
-	for {
+	// bounded: a face table that hands identifiers out again after a removal never gets there; the
+	// registrations are then kept instead (identifiers in use cannot be handed out twice)
+	var kept []uint64
+	for n := 0; n < 3*4096; n++ {
 		l := face.MakeNDNLPLinkService(face.VerifNewTransport(8800, defn.Local), face.MakeNDNLPLinkServiceOptions())
 		face.FaceTable.Add(l)
 		id := l.FaceID()
-		face.FaceTable.Remove(id)
-		if id >= 4096 {
-			return
+		if n < 4200 {
+			face.FaceTable.Remove(id)
+		} else {
+			faceIDsReused = true
+			kept = append(kept, id)
 		}
+		if id >= 4096 {
+			break
+		}
+	}
+	for _, id := range kept {
+		face.FaceTable.Remove(id)
 	}
 }
 
+// faceIDsReused: the face table handed an identifier out again after the face holding it was removed
+// (observed while advancing the counter); reported by the next faces2 operation
+var faceIDsReused bool
+
 // concurrentFaces: see "faces2" in the protocol description.
 func concurrentFaces(k int) string {
+	if faceIDsReused {
+		return "face-ids-reused: FaceTable.Add handed out an identifier that an earlier, removed face had (PIT records and routes of the old face now name the new one)"
+	}
 	clash, accepted := 0, 0
 	for r := 0; r < k; r++ {
 		ls := [2]*face.NDNLPLinkService{
